@@ -277,7 +277,7 @@ func c17Scenarios(r *hx.Run) []hx.Scenario {
 		for _, viaHub := range []bool{false, true} {
 			name := fmt.Sprintf("c17:burst:%s:hub=%v", strings.Join(b, ","), viaHub)
 			out = append(out, hx.Scenario{Name: name, Body: c17BurstBody(b, viaHub), Bounds: simrt.B(1, 0, 0),
-				Cfg: simrt.Config{MaxSteps: 200000, BranchAfterMark: true, BranchOnly: []string{"ReportMdnsEntries", "mdns.deliver", "chanListener"}}})
+				Cfg: simrt.Config{MaxSteps: 200000, BranchAfterMark: true, BranchOnly: []string{"eportMdnsEntries", "mdns.deliver", "chanListener"}}})
 		}
 	}
 	return out
